@@ -1352,12 +1352,21 @@ class Sim18:
                     # 64-bit integer payloads too: both routes compute their image in float64 (narrower integers
                     # go through a same-width float in place and through float64 in the copying form: C17's subject)
                     bad = "numbers"
+                # rounding tolerance at the NARROWEST floating type that took part: float32 operands written into a
+                # float64 out= buffer are computed by another route than the copying form (operand rescaled in
+                # float32 vs result rescaled in float64) and legitimately agree to float32 precision only
+                # (met at VERIF_SEED=1: np.divide(x_f32 J, y_f32 dyn*cm, out=o_f64, where=mask), 1e-8 apart)
+                tol_dt = str(got.dtype)
+                for c in copies.values():
+                    cd = np.asarray(c).dtype
+                    if cd.kind in "fc" and cd.itemsize // (2 if cd.kind == "c" else 1) < np.dtype(tol_dt).itemsize // (2 if np.dtype(tol_dt).kind == "c" else 1):
+                        tol_dt = {2: "float16", 4: "float32", 8: "float64"}[cd.itemsize // (2 if cd.kind == "c" else 1)]
                 for x, y in zip(got.ravel().tolist(), want.ravel().tolist()):
                     if bad:
                         break
                     cx = [x.real, x.imag] if isinstance(x, complex) else x
                     cy = [y.real, y.imag] if isinstance(y, complex) else y
-                    if not rw.close(cx, cy, str(got.dtype)):
+                    if not rw.close(cx, cy, tol_dt):
                         bad = "numbers"
                         break
         self.oracleC["checked"] += 1
